@@ -232,5 +232,3 @@ Qed.
 Theorem no_skipped_text G fuel text p toks :
   parse_string_fuel G fuel text = POk p toks -> exists u, expandtabs text = u ++ rest p /\ pieces (gnodes G) u.
 Proof. intros H. exact (parse_cov _ _ _ _ _ _ _ _ H). Qed.
-Print Assumptions no_skipped_text.
-Print Assumptions no_skipped_text_total.
